@@ -27,7 +27,12 @@ fn leaf_disagrees(ty: &str, v: &[u8]) -> Option<String> {
         "language" => {
             let r = Language::from_bytes(v);
             let t = r.as_ref().ok().map(|x| x.as_str().to_string());
-            (r.is_ok(), t.clone(), x_is_language(v), t.map_or(true, |t| x_eq_lower(t.as_bytes(), v)))
+            // 'und' (any case) is the empty language: is_empty, == default(), integer form None
+            let und_ok = r.as_ref().ok().map_or(true, |l| {
+                let is_und = x_eq_lower(b"und", v);
+                l.is_empty() == is_und && (*l == Language::default()) == is_und && Option::<u64>::from(*l).is_none() == is_und
+            });
+            (r.is_ok(), t.clone(), x_is_language(v), und_ok && t.map_or(true, |t| x_eq_lower(t.as_bytes(), v)))
         }
         "script" => {
             let r = Script::from_bytes(v);
@@ -48,7 +53,7 @@ fn leaf_disagrees(ty: &str, v: &[u8]) -> Option<String> {
     };
     if real_ok != spec_ok || !text_ok {
         Some(format!(
-            "{}::from_bytes(b\"{}\"): library says {} (text {:?}), production says {}",
+            "{}::from_bytes(b\"{}\"): library says {} (text {:?}), production says {}; or the stored value / its und-ness differs from the normalised input",
             ty, esc(v), if real_ok { "Ok" } else { "Err" }, real_text, if spec_ok { "well-formed" } else { "ill-formed" }
         ))
     } else {
